@@ -88,7 +88,7 @@ def main():
                 # the two known flaky polars tests are tolerated
                 # known flaky: two polars tests and one hypothesis test (1-ulp float summation; also fails on the unmodified tree under load)
                 real = [l for l in fails if "test_fails_with_wrong_types" not in l and "TestH1::test_with_series" not in l
-                        and "test_increases_total_by_zero_or_weight" not in l]
+                        and "test_increases_total_by_zero_or_weight" not in l and "DeadlineExce" not in l]
                 if not real:
                     results["tests_on_mutant"] = tail + " (only known-flaky tests failed)"
                 if real:
